@@ -170,6 +170,10 @@ class InMemoryStorage(BaseStorage):
             trial._trial_id = trial_id
             self._trial_id_to_study_id_and_number[trial_id] = (study_id, trial.number)
             self._studies[study_id].trials.append(trial)
+            # The parameters of a template trial take part in the compatibility check of later
+            # `set_trial_param` calls, as they do in the other storages.
+            for param_name, distribution in trial.distributions.items():
+                self._studies[study_id].param_distribution.setdefault(param_name, distribution)
             self._update_cache(trial_id, study_id)
             return trial_id
 
